@@ -227,7 +227,7 @@ func runFP(c FPCase) error {
 
 func TestSessionFootprint(t *testing.T) {
 	fx.Prelease(2)
-	fx.Run(t, fx.Spec[FPCase]{Prop: "C20", Name: "session_footprint", Quick: 48, Thorough: 600, Gen: genFP, Run: runFP, ShrinkTime: "40s",
+	fx.Run(t, fx.Spec[FPCase]{Prop: "C20", Name: "session_footprint", Journal: true, Quick: 48, Thorough: 600, Gen: genFP, Run: runFP, ShrinkTime: "40s",
 		Class: func(c FPCase) fx.Class {
 			return fx.Class{NonTrivial: len(c.Reqs) >= 2 || c.CloseAfter >= 0, Fingerprint: fmt.Sprintf("%+v", c), Labels: []string{fmt.Sprintf("closeafter=%d", c.CloseAfter)}}
 		}})
